@@ -179,7 +179,10 @@ func (vm *VM) Run() error {
 			}
 			elements := make([]value, 0, len(left.Elements)*repetitions)
 			for range repetitions {
-				elements = append(elements, left.Elements...)
+				// every repetition gets its own copy of nested arrays and maps
+				for _, e := range left.Elements {
+					elements = append(elements, deepCopy(e))
+				}
 			}
 			err = vm.push(arrayVal{Elements: elements})
 		case OpMap:
